@@ -164,7 +164,8 @@ def unaryLine (tl : String) (t : Ty) {n : Nat} (b : Box n) (lo hi : Int) : Strin
   let rt2 : Box n := initMax fun i => (b.min[i], b.max[i])
   let rt3 := match sz with | .ok s => initDim t (n := n) (fun i => (b.min[i], s[i])) | .error e => .error e
   let hs := lat.foldl (fun h v => mixMBox (mixMBox h (shrink t b v)) (stretchAbsolute t b v)) fnvInit
-  let hp := lat.foldl (fun h p => mix (mixBox h (extendPoint b p)) (bit (containsPoint b p) 1)) fnvInit
+  -- contains_point twice: static vector and matrix-row view
+  let hp := lat.foldl (fun h p => mix (mixBox h (extendPoint b p)) (bit (containsPoint b p) 3)) fnvInit
   let (flo, fhi) := factorRange t
   let hr := (cube flo fhi n).foldl (fun h f => mixMBox h (stretchRelative t b f)) fnvInit
   let corners := if n = 0 then "n/a" else showM (fun l => ";".intercalate (l.map showVec)) (cornerPoints t b)
